@@ -16,7 +16,7 @@ from vpbt.core import run_given
 ID = "C24"
 LEVEL = "exploration"
 RULE = (
-    "A case = a codec-features CSV with 1-2 tiny configurations drawn from 9 variants of the suite's minimal 8x4 format (HQ lossy, "
+    "A case = a codec-features CSV with 1-2 tiny configurations drawn from 12 variants of the suite's minimal 8x4 format (metadata resembling SD/UHD/D-cinema base formats, HQ lossy, "
     "HQ lossless, LD, fragments 1 and 3, fields, 4:2:0, LeGall depth 2, asymmetric) + a generated schedule of the worker commands "
     "printed by the real `vc2-test-case-generator --parallel`: a drawn permutation split into drawn batches, batches run one after "
     "another, commands inside a batch concurrently as separate processes, each process with a drawn PYTHONHASHSEED (0, 1, or a random "
@@ -42,6 +42,16 @@ VARIANTS = {
     "fields": {"picture_coding_mode": "pictures_are_fields", "frame_height": "8", "clean_height": "8"},
     "c420": {"color_diff_format_index": "color_4_2_0"},
     "legall2": {"wavelet_index": "le_gall_5_3", "wavelet_index_ho": "le_gall_5_3", "dwt_depth": "2", "picture_bytes": "40"},
+    # same tiny picture, but metadata close to other base video formats: the order in which configurations are
+    # processed inside one (serial) process must not influence e.g. the base video format chosen for the next one
+    "sd525meta": {"frame_rate_numer": "30000", "frame_rate_denom": "1001", "pixel_aspect_ratio_numer": "10",
+                  "pixel_aspect_ratio_denom": "11", "color_primaries_index": "sdtv_525", "color_matrix_index": "sdtv",
+                  "source_sampling": "interlaced", "luma_offset": "16", "luma_excursion": "219", "color_diff_excursion": "224"},
+    "uhdmeta": {"frame_rate_numer": "60", "frame_rate_denom": "1", "color_primaries_index": "uhdtv", "color_matrix_index": "uhdtv",
+                "luma_offset": "64", "luma_excursion": "876", "color_diff_offset": "512", "color_diff_excursion": "896"},
+    "dcinemameta": {"frame_rate_numer": "24", "frame_rate_denom": "1", "color_primaries_index": "d_cinema",
+                    "color_matrix_index": "reversible", "transfer_function_index": "d_cinema", "luma_excursion": "4095",
+                    "color_diff_offset": "2048", "color_diff_excursion": "4095"},
     "ldfields": {"profile": "low_delay", "picture_bytes": "12", "picture_coding_mode": "pictures_are_fields", "frame_height": "8",
                  "clean_height": "8"},
 }
@@ -127,7 +137,7 @@ def diff_trees(a, b):
 def make_case(rnd):
     """A case drawn from a random.Random seeded by ctx.seed (Hypothesis' first example is always the
     simplest one, which would make every single-example shard identical)."""
-    names = rnd.sample(sorted(VARIANTS), rnd.choice([1, 1, 2]))
+    names = rnd.sample(sorted(VARIANTS), rnd.choice([1, 2, 2]))
     return dict(names=names, perm_seed=rnd.getrandbits(32),
                 batch_sizes=[rnd.choice([4, 6, 8])] + [rnd.choice([1, 2, 4, 4, 6, 8]) for _ in range(rnd.randint(0, 11))],
                 seed_kinds=[rnd.choice([0, 1, 2, 3]) for _ in range(8)], serial_seed2=rnd.randint(1, 2 ** 32 - 1))
